@@ -42,21 +42,22 @@ structure FnMatch where
 mutual
 /-- entries of a ParseBuffer: (token_type, read result, line_number) -/
 inductive Entry where
-  | blockCode (lines : List Str) (ln : Nat)
-  | heading (level : Nat) (content closing : Str) (ln : Nat)
-  | quote (inner : List Entry) (loose : Bool) (ln : Nat)
-  | codeFence (lines : List Str) (prepend : Nat) (leader info lang : Str) (ln : Nat)
-  | thematicBreak (line : Str) (ln : Nat)
-  | list (items : List Item) (ln : Nat)
-  | table (lines : List Str) (startLine : Nat) (ln : Nat)
-  | footnote (ms : List FnMatch) (ln : Nat)
-  | linkRefDefs (ms : List FnMatch) (ln : Nat)
-  | paragraph (lines : List Str) (ln : Nat)
-  | setext (lines : List Str) (ln : Nat)
-  | htmlBlock (lines : List Str) (ln : Nat)
-  | blankLine (ln : Nat)
+  | blockCode (lines : List Str) (ln og : Nat)
+  | heading (level : Nat) (content closing : Str) (ln og : Nat)
+  | quote (inner : List Entry) (loose : Bool) (ln og : Nat)
+  | codeFence (lines : List Str) (prepend : Nat) (leader info lang : Str) (ln og : Nat)
+  | thematicBreak (line : Str) (ln og : Nat)
+  | list (items : List Item) (ln og : Nat)
+  | table (lines : List Str) (startLine : Nat) (ln og : Nat)
+  | footnote (ms : List FnMatch) (ln og : Nat)
+  | linkRefDefs (ms : List FnMatch) (ln og : Nat)
+  | paragraph (lines : List Str) (ln og : Nat)
+  | setext (lines : List Str) (ln og : Nat)
+  | htmlBlock (lines : List Str) (ln og : Nat)
+  | blankLine (ln og : Nat)
+/-- `ln` is the reported `line_number`; `og` is a ghost: the origin of the line the token was found on. -/
 inductive Item where
-  | mk (inner : List Entry) (loose : Bool) (indentation prepend : Nat) (leader : Str) (ln : Nat)
+  | mk (inner : List Entry) (loose : Bool) (indentation prepend : Nat) (leader : Str) (ln og : Nat)
 end
 
 structure Buf where
@@ -574,8 +575,8 @@ def skipBlanks : Nat → FW → Nat → FW × Nat
 
 inductive ItemLines where
   /-- "if the line following the list marker is also empty, then this is an empty list item" -/
-  | empty (indentation prepend : Nat) (leader : Str) (ln : Nat) (next : Option (Nat × Nat × Str × Str)) (fw : FW)
-  | lines (buf : List Line) (contentStart : Nat) (indentation prepend : Nat) (leader : Str) (ln : Nat)
+  | empty (indentation prepend : Nat) (leader : Str) (ln og : Nat) (next : Option (Nat × Nat × Str × Str)) (fw : FW)
+  | lines (buf : List Line) (contentStart : Nat) (indentation prepend : Nat) (leader : Str) (ln og : Nat)
       (next : Option (Nat × Nat × Str × Str)) (fw : FW)
 
 /-- ListItem.read up to the nested tokenize_block -/
@@ -593,116 +594,123 @@ def itemLines (cfg : Cfg) (fw : FW) (prev : Option (Nat × Nat × Str × Str)) :
         let (fw2, blanks) := skipBlanks (fw.remaining + 1) fw1 1
         if blanks > 1 then
           let next := match fw2.peek with | some l => parseMarker l.s | none => none
-          .ok (.empty indentation prepend leader startLine next fw2)
+          .ok (.empty indentation prepend leader startLine l0.origin next fw2)
         else
           match itemLoop cfg prepend (fw.remaining + 1) fw2 [] 0 with
           | .err e => .err e
-          | .ok (buf, fw3, next) => .ok (.lines buf.reverse (startLine + 1) indentation prepend leader startLine next fw3)
+          | .ok (buf, fw3, next) => .ok (.lines buf.reverse (startLine + 1) indentation prepend leader startLine l0.origin next fw3)
       else
         match itemLoop cfg prepend0 (fw.remaining + 1) fw1 [{ s := content, origin := l0.origin }] 0 with
         | .err e => .err e
-        | .ok (buf, fw3, next) => .ok (.lines buf.reverse startLine indentation prepend0 leader startLine next fw3)
+        | .ok (buf, fw3, next) => .ok (.lines buf.reverse startLine indentation prepend0 leader startLine l0.origin next fw3)
 
 /-! ### tokenize_block -/
 
 def entryCount : List Entry → Nat := List.length
 
+/-
+  The four mutually recursive functions below share one structural `gas : Nat`: every call passes
+  `gas - 1`, so `gas` bounds the length of the longest call chain (nesting depth × (lines + types +
+  items)); running out gives `err .fuel`.  (One shared counter keeps the recursion structural, hence
+  evaluable by the kernel.)
+-/
 mutual
-/-- `tokenize_block(iterable, token_types, start_line)`; `fuel` bounds the nesting depth -/
+/-- `tokenize_block(iterable, token_types, start_line)` -/
 def tokenizeBlock (cfg : Cfg) : Nat → List Line → Nat → St → Res (Buf × St)
   | 0, _, _, _ => .err .fuel
-  | fuel + 1, lines, start, st =>
-    tokLoop cfg fuel (lines.length + 1) { lines := lines, pos := 0, start := start } st [] false
+  | gas + 1, lines, start, st =>
+    tokLoop cfg gas { lines := lines, pos := 0, start := start } st [] false
 
 /-- the `while line is not None` loop -/
-def tokLoop (cfg : Cfg) (fuel : Nat) : Nat → FW → St → List Entry → Bool → Res (Buf × St)
+def tokLoop (cfg : Cfg) : Nat → FW → St → List Entry → Bool → Res (Buf × St)
   | 0, _, _, _, _ => .err .fuel
-  | k + 1, fw, st, acc, loose =>
+  | gas + 1, fw, st, acc, loose =>
     match fw.peek with
     | none => .ok ({ entries := acc.reverse, loose := loose }, st)
     | some l =>
-      match tryTypes cfg fuel fw st l cfg.types with
+      match tryTypes cfg gas fw st l cfg.types with
       | .err e => .err e
-      | .ok (some (e, fw', st')) => tokLoop cfg fuel k fw' st' (e :: acc) loose
-      | .ok none => tokLoop cfg fuel k fw.next st acc true        -- unmatched newlines
+      | .ok (some (e, fw', st')) => tokLoop cfg gas fw' st' (e :: acc) loose
+      | .ok none => tokLoop cfg gas fw.next st acc true        -- unmatched newlines
 
 /-- `for token_type in token_types: if token_type.start(line): … read …` -/
-def tryTypes (cfg : Cfg) (fuel : Nat) (fw : FW) (st : St) (l : Line) : List BTok → Res (Option (Entry × FW × St))
-  | [] => .ok none
-  | t :: ts =>
+def tryTypes (cfg : Cfg) : Nat → FW → St → Line → List BTok → Res (Option (Entry × FW × St))
+  | 0, _, _, _, _ => .err .fuel
+  | _ + 1, _, _, _, [] => .ok none
+  | gas + 1, fw, st, l, t :: ts =>
     let ln := fw.start + fw.pos          -- lines.line_number() + 1
-    let skip := tryTypes cfg fuel fw st l ts
     match t with
     | .blockCode =>
-      if blockCodeStart l.s then let (b, fw') := readBlockCode fw; .ok (some (.blockCode b ln, fw', st)) else skip
+      if blockCodeStart l.s then let (b, fw') := readBlockCode fw; .ok (some (.blockCode b ln l.origin, fw', st))
+      else tryTypes cfg gas fw st l ts
     | .heading =>
       (match readHeading fw l.s with
-       | some (lvl, c, cl, fw') => .ok (some (.heading lvl c cl ln, fw', st))
-       | none => skip)
+       | some (lvl, c, cl, fw') => .ok (some (.heading lvl c cl ln l.origin, fw', st))
+       | none => tryTypes cfg gas fw st l ts)
     | .quote =>
       if quoteStart l.s then
         match quoteLines cfg fw l with
         | .err e => .err e
         | .ok (qls, qstart, fw') =>
           -- Paragraph.parse_setext = False; try: nested tokenize_block  finally: parse_setext = True
-          match tokenizeBlock cfg fuel qls qstart { st with setext := false } with
+          match tokenizeBlock cfg gas qls qstart { st with setext := false } with
           | .err e => .err e
-          | .ok (b, st') => .ok (some (.quote b.entries b.loose ln, fw', { st' with setext := true }))
-      else skip
+          | .ok (b, st') => .ok (some (.quote b.entries b.loose ln l.origin, fw', { st' with setext := true }))
+      else tryTypes cfg gas fw st l ts
     | .codeFence =>
       (match codeFenceStart l.s with
-       | some m => let (b, fw') := readCodeFence fw m; .ok (some (.codeFence b m.prepend m.leader m.info m.lang ln, fw', st))
-       | none => skip)
+       | some m => let (b, fw') := readCodeFence fw m; .ok (some (.codeFence b m.prepend m.leader m.info m.lang ln l.origin, fw', st))
+       | none => tryTypes cfg gas fw st l ts)
     | .thematicBreak =>
-      if thematicBreak l.s then .ok (some (.thematicBreak l.s ln, fw.next, st)) else skip
+      if thematicBreak l.s then .ok (some (.thematicBreak l.s ln l.origin, fw.next, st)) else tryTypes cfg gas fw st l ts
     | .list =>
       if listStart l.s then
-        match readList cfg fuel (fw.remaining + 1) fw st none none [] with
+        match readList cfg gas fw st none none [] with
         | .err e => .err e
-        | .ok (items, fw', st') => .ok (some (.list items ln, fw', st'))
-      else skip
+        | .ok (items, fw', st') => .ok (some (.list items ln l.origin, fw', st'))
+      else tryTypes cfg gas fw st l ts
     | .table =>
       if l.s.contains '|' then
         (match readTable fw with
-         | some (b, sl, fw') => .ok (some (.table b sl ln, fw', st))
-         | none => skip)
-      else skip
+         | some (b, sl, fw') => .ok (some (.table b sl ln l.origin, fw', st))
+         | none => tryTypes cfg gas fw st l ts)
+      else tryTypes cfg gas fw st l ts
     | .footnote =>
       if startsWith ['['] (lstrip l.s) then
         match readFootnote fw with
         | .err e => .err e
         | .ok (ms, fw') =>
           let st' := { st with defs := st.defs ++ ms }
-          if ms.isEmpty then tryTypes cfg fuel fw' st' l ts else .ok (some (.footnote ms ln, fw', st'))
-      else skip
+          if ms.isEmpty then tryTypes cfg gas fw' st' l ts else .ok (some (.footnote ms ln l.origin, fw', st'))
+      else tryTypes cfg gas fw st l ts
     | .linkRefDefBlock =>
       if startsWith ['['] (lstrip l.s) then
         match readFootnote fw with
         | .err e => .err e
         | .ok (ms, fw') =>
           let st' := { st with defs := st.defs ++ ms }
-          if ms.isEmpty then tryTypes cfg fuel fw' st' l ts else .ok (some (.linkRefDefs ms ln, fw', st'))
-      else skip
+          if ms.isEmpty then tryTypes cfg gas fw' st' l ts else .ok (some (.linkRefDefs ms ln l.origin, fw', st'))
+      else tryTypes cfg gas fw st l ts
     | .paragraph =>
       if !isBlank l.s then
         match readParagraph cfg st.setext fw l.s with
         | .err e => .err e
-        | .ok (b, true, fw') => .ok (some (.setext b ln, fw', st))
-        | .ok (b, false, fw') => .ok (some (.paragraph b ln, fw', st))
-      else skip
+        | .ok (b, true, fw') => .ok (some (.setext b ln l.origin, fw', st))
+        | .ok (b, false, fw') => .ok (some (.paragraph b ln l.origin, fw', st))
+      else tryTypes cfg gas fw st l ts
     | .htmlBlock =>
       (match htmlBlockStart l.s with
        | .err e => .err e
-       | .ok none => skip
-       | .ok (some (_, endCond)) => let (b, fw') := readHtmlBlock fw endCond; .ok (some (.htmlBlock b ln, fw', st)))
+       | .ok none => tryTypes cfg gas fw st l ts
+       | .ok (some (_, endCond)) => let (b, fw') := readHtmlBlock fw endCond; .ok (some (.htmlBlock b ln l.origin, fw', st)))
     | .blankLine =>
-      if blankLine l.s then .ok (some (.blankLine ln, fw.next, st)) else skip
+      if blankLine l.s then .ok (some (.blankLine ln l.origin, fw.next, st)) else tryTypes cfg gas fw st l ts
 
 /-- List.read: `while True: … ListItem.read(lines, next_marker) …`; items reversed in `acc` -/
-def readList (cfg : Cfg) (fuel : Nat) : Nat → FW → St → Option Str → Option (Nat × Nat × Str × Str) → List Item →
+def readList (cfg : Cfg) : Nat → FW → St → Option Str → Option (Nat × Nat × Str × Str) → List Item →
     Res (List Item × FW × St)
   | 0, _, _, _, _, _ => .err .fuel
-  | k + 1, fw, st, leader, nextMarker, acc =>
+  | gas + 1, fw, st, leader, nextMarker, acc =>
     let anchor := fw.pos
     match itemLines cfg fw nextMarker with
     | .err e => .err e
@@ -710,18 +718,18 @@ def readList (cfg : Cfg) (fuel : Nat) : Nat → FW → St → Option Str → Opt
       -- ListItem.read: the nested tokenize_block
       let res : Res (Item × Str × Option (Nat × Nat × Str × Str) × FW × St) :=
         match il with
-        | .empty ind pre ldr ln next fw' => .ok (.mk [] true ind pre ldr ln, ldr, next, fw', st)
-        | .lines buf cstart ind pre ldr ln next fw' =>
-          match tokenizeBlock cfg fuel buf cstart st with
+        | .empty ind pre ldr ln og next fw' => .ok (.mk [] true ind pre ldr ln og, ldr, next, fw', st)
+        | .lines buf cstart ind pre ldr ln og next fw' =>
+          match tokenizeBlock cfg gas buf cstart st with
           | .err e => .err e
-          | .ok (b, st') => .ok (.mk b.entries b.loose ind pre ldr ln, ldr, next, fw', st')
+          | .ok (b, st') => .ok (.mk b.entries b.loose ind pre ldr ln og, ldr, next, fw', st')
       match res with
       | .err e => .err e
       | .ok (item, itemLeader, next, fw', st') =>
         let stop (items : List Item) (fwEnd : FW) : Res (List Item × FW × St) :=
           -- "Only consider the last list item loose if there's more than one element"
           let items' := match items with
-            | .mk inner loose i p l n :: rest => Item.mk inner (decide (inner.length > 1) && loose) i p l n :: rest
+            | .mk inner loose i p l n g :: rest => Item.mk inner (decide (inner.length > 1) && loose) i p l n g :: rest
             | [] => []
           .ok (items'.reverse, fwEnd, st')
         match leader with
@@ -729,15 +737,15 @@ def readList (cfg : Cfg) (fuel : Nat) : Nat → FW → St → Option Str → Opt
           if !sameMarkerType ld itemLeader then stop acc { fw' with pos := anchor }
           else match next with
             | none => stop (item :: acc) fw'
-            | some _ => readList cfg fuel k fw' st' (some ld) next (item :: acc)
+            | some _ => readList cfg gas fw' st' (some ld) next (item :: acc)
         | none =>
           match next with
           | none => stop (item :: acc) fw'
-          | some _ => readList cfg fuel k fw' st' (some itemLeader) next (item :: acc)
+          | some _ => readList cfg gas fw' st' (some itemLeader) next (item :: acc)
 end
 
 /-- The block phase of `Document(lines)`: the parse buffer and every definition in call order. -/
-def blockPhase (cfg : Cfg) (fuel : Nat) (lines : List Str) : Res (Buf × St) :=
-  tokenizeBlock cfg fuel (lines.zipIdx.map (fun (s, i) => { s := s, origin := i + 1 })) 1 {}
+def blockPhase (cfg : Cfg) (gas : Nat) (lines : List Str) : Res (Buf × St) :=
+  tokenizeBlock cfg gas (lines.zipIdx.map (fun (s, i) => { s := s, origin := i + 1 })) 1 {}
 
 end Mistletoe.Block
